@@ -31,7 +31,7 @@ DEFAULT_PROFILE = {
     "p_sstream": 0.25, "p_cstream": 0.15, "p_bidi": 0.15, "p_lro": 0.3, "p_raw_op": 0.08,
     "p_http": 0.9, "p_signature": 0.7, "p_routing": 0.25, "p_keyword_rpc": 0.08,
     "p_service_config": 0.8, "p_yaml": 0.3, "p_reserved_field": 0.08, "p_two_services": 0.25,
-    "p_foreign_request": 0.1, "p_shuffle_numbers": 0.2, "p_additional_binding": 0.25,
+    "p_foreign_request": 0.1, "p_shuffle_numbers": 0.2, "p_additional_binding": 0.25, "p_param_name_collision": 0.0,
     "p_auto_populate": 0.0, "p_google_api_ns": 0.0, "sig_variants": False, "p_multi_var_path": 0.0, "mixin_variants": False, "p_add_iam_methods": 0.0, "p_equal_sort_keys": 0.0, "p_reserved_path_var": 0.0, "p_local_empty": 0.0, "p_same_method_two_services": 0.0, "p_required_enum": 0.0, "p_custom_http_pattern": 0.0, "p_real_api": 0.04, "p_nested_name_ties": 0.15, "p_double_star_path": 0.0, "p_value_fields": 0.0, "p_mixed_foreign_io": 0.0, "common_file_names": ["resources"],
     "transports": ["grpc", "grpc+rest", "grpc+rest", "rest"],
     "p_numeric_enums": 0.3,
@@ -462,12 +462,19 @@ def _gen_methods(cx, pkg, main, svc, noun, res, enums, msgs):
             fields.append({"name": "etag", "number": 2, "type": "string"})
         if rng.random() < 0.3:
             fields.append({"name": "force", "number": 3, "type": "bool"})
+        clash = None
+        if cx.chance("p_param_name_collision"):
+            # a request field named like a parameter of every client method, and flattened (known finding 11)
+            clash = rng.choice(["timeout", "retry", "metadata", "request"])
+            fields.append({"name": clash, "number": 7, "type": "string"})
         _msg(main, f"Delete{noun}Request", fields)
         m = {"name": f"Delete{noun}", "input": f"{P}.Delete{noun}Request", "output": ".google.protobuf.Empty"}
         if cx.chance("p_http"):
             m["http"] = {"verb": "delete", "path": f"{pre}/{{name={wild}}}"}
         if cx.chance("p_signature"):
             m["signatures"] = ["name"]
+        if clash:
+            m["signatures"] = ["name," + clash]
         if cx.chance("p_routing"):
             m["routing"] = gen_routing(rng, res)
         svc["methods"].append(m)
